@@ -372,6 +372,7 @@ class Run:
         self.tool_errors = []
         self.assumptions = []
         self.tags = {}
+        self.cur_sub = ""
 
     def add_mc(self, name, res):
         self.mc.append(dict(name=name, generated=res["generated"], distinct=res["distinct"], wall_s=res["wall_s"],
@@ -402,7 +403,7 @@ class Run:
         all_lines = cases_lines(trace, bad_cases, case_key) if bad_cases else {}
         for c in bad_cases:
             self.v.failing_case(all_lines[c], dict(tier=self.tier, seed=self.seed, spec=module, cfg=cfg, repo=rev,
-                                                   trace=os.path.basename(trace)), classify)
+                                                   trace=os.path.basename(trace), sub=self.cur_sub), classify)
         return len(bad_cases)
 
     def gen_validate(self, label, harness_args, module, cfg, shards, classify, count_cases, env=None,
@@ -410,6 +411,7 @@ class Run:
         """Run the harness `shards` times (seed varies per shard, or one stdin file per shard) and
         validate every trace in parallel."""
         build_harness()
+        self.cur_sub = str(harness_args[0]) if harness_args else ""
 
         def one(i):
             tr = os.path.join(WORK, "traces", "%s-%s-%d.ndjson" % (self.prop, label, i))
